@@ -3,7 +3,7 @@ from . import lib, walkcommon as W
 
 META = {
     'level': 'proof',
-    'technique': 'Lean 4 theorems (owed calls invariant under arbitrary rearrangement of every directory; sorted key sequence identical; CmpPackages strict total order; roots = concatenation) + '
+    'technique': 'Lean 4 theorems (findings and plugin statuses emitted in the documented field-by-field order, a permutation of the collected ones; owed calls invariant under arbitrary rearrangement of every directory; sorted key sequence identical; CmpPackages strict total order; roots = concatenation) + '
                  'correspondence under permuted ReadDir orders and 1-3 roots',
     'design_ref': 'DESIGN.md §5 C08',
     'text': 'Kernel-checked: for arbitrary rearrangements of every directory listing the specification owes the same calls as a multiset, the scans\' package lists are permutations and '
@@ -54,5 +54,13 @@ def run(ctx):
         return None
     W.run_stream(ctx, 'perm', n, oracle)
     ctx.extra['order_groups'] = len(groups)
+    # ---- the clause "packages, FINDINGS and STATUSES are emitted in the documented sorted order" for findings and for the
+    # statuses of standalone extractors / detectors: theorems in Properties/C08Findings.lean (model of the tail of Scan),
+    # tied to the real scalibr.Scan through the scan harness of C20 (findings and statuses read in emitted order)
+    from . import c20
+    ok = ctx.audit(['Scalibr.Properties.C08', c20.ORDER_MODULE], THEOREMS + c20.ORDER_THEOREMS) and ok
+    if ctx.tier == 'thorough':
+        ok = ctx.leanchecker(c20.ORDER_MODULE) and ok
+    c20.run_findings_order(ctx)
     if not ok:
-        lib.proof_failed(ctx, 'Scalibr.Properties.C08')
+        lib.proof_failed(ctx, 'Scalibr.Properties.C08 / Scalibr.Properties.C08Findings')
